@@ -186,6 +186,60 @@ def b_special(c):
     return (lambda v: getattr(np, prim)(v)), x, {}
 
 
+# ----------------------------------------------------------------------------- arrays with no entries
+def b_empty(c):
+    prim, s, v = c["prim"], tuple(c["s"]), c["ia"]
+    x = onp.zeros(s)
+    ax = axis_arg(c["ax"])
+    nd = len(s)
+    full = tuple(d if d else 2 for d in s)          # the same shape with the empty axis given 2 entries
+    if prim in ("sum", "prod", "cumsum"):
+        if prim == "cumsum":
+            if c["kd"] or isinstance(ax, tuple):
+                raise Skip("cumsum has no keepdims")
+            return (lambda u: np.cumsum(u, axis=ax)), x, {}
+        return (lambda u: getattr(np, prim)(u, axis=ax, keepdims=c["kd"])), x, {}
+    if prim in ("mean_nonempty_axis", "max_nonempty_axis"):
+        if ax is None or s[ax] == 0:
+            raise Skip("reduction over an empty axis is not defined")
+        fn = np.mean if prim.startswith("mean") else np.max
+        return (lambda u: fn(u, axis=ax, keepdims=c["kd"])), x, {}
+    other = onp.ones(s)
+    table = {
+        "reshape": lambda u: np.reshape(u, (-1,) if v else s[::-1]),
+        "transpose": lambda u: np.transpose(u) if v else u.T,
+        "ravel": lambda u: np.ravel(u),
+        "negative": lambda u: -u,
+        "exp": lambda u: np.exp(u),
+        "abs": lambda u: np.abs(u),
+        "sqrt": lambda u: np.sqrt(u + 1.0),
+        "multiply": lambda u: u * other if v else u * 2.0,
+        "add": lambda u: u + other if v else 1.5 + u,
+        "concatenate": lambda u: np.concatenate((u, onp.ones(full)) if v else (u, u), axis=[i for i, d in enumerate(s) if d == 0][0]),
+        "stack": lambda u: np.stack((u, other), axis=v),
+        "getitem_empty": lambda u: u[0:0] if v else u[..., :0],
+        "dot": lambda u: np.dot(u, onp.ones(s[::-1])) if nd == 2 else np.dot(u, other),
+        "matmul": lambda u: np.matmul(u, onp.ones(s[::-1])) if nd == 2 else np.matmul(u, other),
+        "outer": lambda u: np.outer(u, onp.ones(3)) if v else np.outer(onp.ones(3), u),
+        "where": lambda u: np.where(onp.ones(s) > 0, u, other),
+        "sort": lambda u: np.sort(u, axis=0 if v else -1),
+        "flip": lambda u: np.flip(u, axis=0 if v else None),
+        "expand_dims": lambda u: np.expand_dims(u, v),
+        "squeeze": lambda u: np.squeeze(u[..., None] if v else u[None]),
+        "tile": lambda u: np.tile(u, 2 if v else (2,) * nd),
+        "repeat": lambda u: np.repeat(u, 2, axis=0 if v else None),
+        "pad": lambda u: np.pad(u, 1, "constant"),
+        "broadcast_to": lambda u: np.broadcast_to(u, (2,) + s),
+        "diag": lambda u: np.diag(u) if nd == 1 else np.diagonal(u),
+        "trace": lambda u: np.trace(u) if nd == 2 else np.sum(u),
+        "tensordot": lambda u: np.tensordot(u, onp.ones(s[::-1]), axes=1) if nd == 2 else np.tensordot(u, other, axes=1),
+        "einsum": lambda u: np.einsum("ij->j", u) if nd == 2 else np.einsum("i->", u),
+        "kron": lambda u: np.kron(u, onp.ones((2,) * nd)),
+        "clip": lambda u: np.clip(u, 0.0, 1.0),
+    }
+    return table[prim], x, {}
+
+
 # ----------------------------------------------------------------------------- a real value placed into a complex array
 def b_realinto(c):
     prim, st, pre, pos = c["prim"], c["st"], c["ia"], c["argnum"]
@@ -917,4 +971,4 @@ def b_helper(c):
     return f, x, {}
 
 
-BUILDERS = {"mixorder": b_mixorder, "realinto": b_realinto, "special": b_special, "extend": b_extend, "helper": b_helper, "argsweep": b_argsweep, "kink": b_kink, "linalg": b_linalg, "fft": b_fft, "index": b_index, "join": b_join, "contract": b_contract, "rearr": b_rearr, "binary": b_binary, "where": b_where, "reduce": b_reduce, "cum": b_cum, "unary": b_unary}
+BUILDERS = {"empty": b_empty, "mixorder": b_mixorder, "realinto": b_realinto, "special": b_special, "extend": b_extend, "helper": b_helper, "argsweep": b_argsweep, "kink": b_kink, "linalg": b_linalg, "fft": b_fft, "index": b_index, "join": b_join, "contract": b_contract, "rearr": b_rearr, "binary": b_binary, "where": b_where, "reduce": b_reduce, "cum": b_cum, "unary": b_unary}
